@@ -419,7 +419,14 @@ func Main(args []string) int {
 	enumerate(maxLen, r)
 	randomStrings(r, r.N(200000, 3000000))
 	parserPart(r, r.N(1500, 20000))
+	// routing clause: equivalent re-escapings reach the same operation with the same arguments (on regenerated servers)
+	if rc := RoutingPart(r); rc != 0 {
+		return rc
+	}
 	r.Assume("reference normaliser written from RFC 3986 §2.3/§6.2.2 and the property text; net/url PathUnescape used as a second octet oracle")
-	r.Assume("routing consequence (equivalent re-escapings reach the same operation) is monitored on regenerated servers by the C05 driver and reported there and in C12's evidence when that engine ran")
+	r.Assume("routing clause: route-set servers regenerated from /repo are sent re-escaped spellings (hex case flipped, unreserved bytes needlessly escaped, hand-built URL{Path,RawPath}, malformed RawPath, path prefix needlessly escaped) and each outcome is decided by the reference router on the reference-normalised path")
 	return r.Finish(fmt.Sprintf("function part: every string of length <= %d over the alphabet %q (exhaustive sub-space) plus PRNG byte strings; non-trivial = contains '%%', distinct by input text. parser part: pairs of path keys, equivalent (hex case / needless escapes) or not, decided against the reference normaliser", maxLen, string(alphabet)), 1000, false)
 }
+
+// RoutingPart is set by the vf main package (the router driver lives in sl/c05, which this package must not import cyclically).
+var RoutingPart = func(r *ev.Run) int { return 0 }
